@@ -72,11 +72,33 @@ class C20(core.Prop):
             return rng.sample(pool, rng.randint(0, min(4, len(pool))))
         return rng.choice([rng.randint(-3, 9), rng.choice(STRS), rng.random() < 0.5])
 
+    def _variant(self, rng, template):
+        out = {}
+        for k, v in template.items():
+            if rng.random() < 0.25:
+                continue
+            if rng.random() < 0.1:
+                out[k] = self._value(rng, 2)
+            elif isinstance(v, dict):
+                out[k] = self._variant(rng, v)
+            elif isinstance(v, list):
+                pool = STRS if v and isinstance(v[0], str) else [0, 1, 2, 3, 4, 5]
+                out[k] = rng.sample(pool, rng.randint(0, min(4, len(pool))))
+            else:
+                out[k] = self._value(rng, 3) if rng.random() < 0.3 else v
+        return out
+
     def cases(self, rng, tier):
         n = 300 if tier == 'quick' else 3000
         out = []
         for _ in range(n):
-            sources = [{k: self._value(rng, 1) for k in rng.sample(KEYS, rng.randint(1, 4))} for _ in range(rng.randint(1, 4))]
+            if rng.random() < 0.5:
+                sources = [{k: self._value(rng, 1) for k in rng.sample(KEYS, rng.randint(1, 4))} for _ in range(rng.randint(1, 4))]
+            else:
+                # layers derived from one template: the same paths recur with values of the same type, so that
+                # lists/tables meet lists/tables repeatedly (3+ layers touching one key)
+                template = {k: self._value(rng, 1) for k in rng.sample(KEYS, rng.randint(2, 4))}
+                sources = [self._variant(rng, template) for _ in range(rng.randint(2, 4))]
             case = {'t': 'stack', 'sources': sources}
             if rng.random() < 0.15:
                 case['gap'] = rng.randint(0, len(sources))
@@ -119,7 +141,14 @@ class C20(core.Prop):
     def run_impl(self, cases):
         from harness.impl import c20 as impl
 
-        return [impl.observe(c) for c in cases]
+        obs = [impl.observe(c) for c in cases]
+        if getattr(self, 'tier', 'quick') == 'thorough':  # merge iterates a set of keys: repeat under other hash seeds
+            for seed in ('1', '2', '3'):
+                other = core.impl_subprocess('harness.impl.c20', cases, {'PYTHONHASHSEED': seed})
+                for i, (a, b) in enumerate(zip(obs, other)):
+                    if a != b and 'error' not in a:
+                        obs[i] = {'error': f'result depends on PYTHONHASHSEED={seed}: {a} vs {b}'}
+        return obs
 
     def coq_case(self, case, obs):
         if 'error' in obs:
